@@ -12,8 +12,8 @@ func (w verifWrapErr) Error() string { return "wrapped: " + w.err.Error() }
 func (w verifWrapErr) Unwrap() error { return w.err }
 
 func verifHarness_C09_panic() {
-	n := 1 + verifChoice("n", 3)  // chain length incl. main
-	g := verifChoice("globals", 2) // 0..1 of them global
+	n := 1 + verifChoice("n", verifParam("N")) // chain length incl. main
+	g := verifChoice("globals", verifParam("N")-1) // how many of them are global
 	if g >= n {
 		g = n - 1
 	}
